@@ -12,8 +12,8 @@
    is refused above [cap] bytes ([Throw 1] = std::bad_alloc) or when the count is negative ([Throw 2] =
    std::length_error, the count being converted to size_t); loops that are not structurally bounded by the
    input run on fuel ([Hang]).
-   The record [cfg] selects the code before the fixes C09_1..4 (cfg_asis), as it is now (cfg_now) or with the
-   proposed fixes/C09_5 (cfg_fixed).
+   The record [cfg] selects the code as it is now (cfg_fixed: fixes C09_1..5 applied) or earlier states of it
+   (cfg_asis, cfg_pre5: regression examples).
    No proofs here. *)
 From Coq Require Import List ZArith QArith Bool.
 Import ListNotations.
@@ -25,11 +25,12 @@ Record cfg := mkCfg {
   fix_counts : bool;  (* fix C09_2 (applied): counts read from the file are refused when negative or larger than the remaining input *)
   fix_locfail : bool; (* fix C09_3, second hunk (applied): a locator word refused by locatorIdentify is a failure *)
   fix_grid : bool;    (* fix C09_4 (applied): DbGrid::_deserialize propagates the failure of the Db part; sample count = grid size *)
-  fix_rank : bool     (* fixes/C09_5 (proposed): locator ranks below the number of columns, and every role slot declared by a column *)
+  fix_rank : bool     (* fix C09_5 (applied): locator ranks below the number of columns, and every role slot declared by a column *)
 }.
-(* the code before the fixes (regression witnesses only), the code as it is now, the code with the proposed C09_5 *)
+(* cfg_fixed is the code as it is now (fixes C09_1 .. C09_5 applied); cfg_asis (before the fixes) and cfg_pre5 (before
+   C09_5) are kept for the regression examples only *)
 Definition cfg_asis : cfg := mkCfg false false false false false.
-Definition cfg_now : cfg := mkCfg true true true true false.
+Definition cfg_pre5 : cfg := mkCfg true true true true false.
 Definition cfg_fixed : cfg := mkCfg true true true true true.
 (* what the theorems about the current code need from a configuration *)
 Definition cfg_ge_now (c : cfg) : Prop :=
@@ -258,7 +259,8 @@ Fixpoint rv_words (fixs : bool) (nvalues base total : Z) (ws : list (list Z)) (e
   end.
 (* common part: returns None when the reader returns false, else the words read (in order) *)
 Definition read_vec_raw (E : env) (site : Z) (nvalues base total : Z) (m : mon) : res (option (list (list Z))) :=
-  if good (ms m) then
+  if nvalues =? 0 then Ret (Some []) m      (* "nothing to read for an empty vector" (fix C08_12): returns at once *)
+  else if good (ms m) then
     match next_line (S (S (length (rest (ms m))))) (ms m) [] with
     | None => Bad (Hang site)
     | Some (line, s') =>
@@ -268,7 +270,7 @@ Definition read_vec_raw (E : env) (site : Z) (nvalues base total : Z) (m : mon) 
         | VDone ecr acc => if nvalues =? ecr then Ret (Some (frev acc)) (set_ms m s') else Ret None (set_ms m s')
         end
     end
-  else if nvalues =? 0 then Ret (Some []) m else Ret None m.
+  else Ret None m.
 (* _recordReadVec<T>(is, title, vec, nvalues): vec.resize(nvalues) first *)
 Definition read_vec (E : env) (site : Z) (sz nvalues : Z) (m : mon) : res (option (list (list Z))) :=
   do _, m1 <- alloc E site nvalues sz m;
